@@ -67,6 +67,15 @@ def main():
                 sizes = D.partition_sizes(rng, len(payload), mode)
                 raw = D.respond(dmr, payload, little, sizes)
                 res = decode_with_pydap(raw)
+                # a sender may set the byte-order bit on the first (DMR) chunk only: the first chunk is the authoritative one
+                if rng.random() < 0.5:
+                    res1 = decode_with_pydap(D.respond(dmr, payload, little, sizes, flag_all=False))
+                    same1 = res1[0] == res[0] and (res[0] == "raise" or (sorted(res1[1]) == sorted(res[1]) and all(
+                        res1[1][k][0] == res[1][k][0] and res1[1][k][1] == res[1][k][1] and canon(res1[1][k][2]) == canon(res[1][k][2])
+                        for k in res[1])))
+                    if not same1 and len(direct) < 10:
+                        direct.append({"law": "the byte order of a response is the one its first chunk announces", "dmr": dmr.decode(),
+                                       "little": little, "sizes": sizes})
                 key = "fixed" if isinstance(mode, int) else mode
                 dist["partition"][key] = dist["partition"].get(key, 0) + 1
                 r.count(("dap4", i, little, tuple(sizes)))
